@@ -159,9 +159,9 @@ def rule_d(ctx):
     cq = f.params[1]
     arms = {}
     for n in ast.walk(f.node):
-        if isinstance(n, ast.If) and f"len({cq}.shape)" in norm(n.test):
+        if isinstance(n, ast.If) and f"{cq}.ndim" in norm(n.test):
             eqs = {frozenset((norm(c.left), norm(c.comparators[0]))) for c in ast.walk(n.test) if isinstance(c, ast.Compare) and len(c.ops) == 1 and isinstance(c.ops[0], ast.Eq)}
-            L = f"len({cq}.shape)"
+            L = f"{cq}.ndim"
             kind = "tensor" if frozenset((L, f"{g}.dim + 2")) in eqs else ("vector" if frozenset((f"{cq}.shape[-1]", f"{g}.dim")) in eqs and frozenset((L, f"{g}.dim + 1")) in eqs
                                                                           else ("scalar" if frozenset((L, f"{g}.dim")) in eqs else None))
             if kind:
